@@ -243,6 +243,11 @@ def run_split(case, rec):
         else:
             got = ledger(s); exp = collapse(e)
         bad, worst = ledger_diff(got, exp, rel=1e-12, abs_=0.0)
+        if bad:
+            # feed - split*feed cancels when split is close to 1: both orders of evaluation (per phase then summed, or summed then split) are exact to a few
+            # ulps of the FEED of that chemical, which is the floor of what can be asked of the remainder
+            fc = collapse(fb)
+            bad = [(k_, x_, y_) for k_, x_, y_ in bad if abs(x_ - y_) > 1e-12 * max(abs(x_), abs(y_)) + 8 * 2.220446049250313e-16 * abs(fc.get(k_[1] if isinstance(k_, tuple) else k_, 0.0))]
         rec.check(not bad, 'split', f'{name}/{tag}', f'split_to: {name} differs from {"split*feed" if name == "s1" else "feed-split*feed"}: {bad[:4]}', residual=worst,
                   detail={'expected': {str(k): v for k, v in exp.items()}, 'got': {str(k): v for k, v in got.items()}})
     bb, _ = ledger_diff({str(k): v for k, v in phase_ledger(feed).items()}, {str(k): v for k, v in fb.items()}, rel=0)
@@ -811,6 +816,11 @@ def run_split2(case, rec):
         else:
             got = ledger(s); exp = collapse(e)
         bad, worst = ledger_diff(got, exp, rel=1e-12, abs_=0.0)
+        if bad:
+            # rounding floor of the remainder: a few ulps of the feed of that chemical (see the first split clause)
+            fc = {}
+            for (ph_, c_), v_ in fb.items(): fc[c_] = fc.get(c_, 0.0) + abs(v_)
+            bad = [(k_, x_, y_) for k_, x_, y_ in bad if abs(x_ - y_) > 1e-12 * max(abs(x_), abs(y_)) + 8 * 2.220446049250313e-16 * max([v_ for c_, v_ in fc.items() if c_ in str(k_)] + [0.0])]
         rec.check(not bad, 'split', f'{name}/{tag}', f'split_to: {name} differs from {"split*feed" if name == "s1" else "feed-split*feed"}: {bad[:4]}', residual=worst,
                   detail={'expected': exp, 'got': got})
     bb, _ = ledger_diff(sled(phase_ledger(feed)), sled(fb), rel=0)
